@@ -37,7 +37,7 @@ build_engine() {  # the shipped artifact, hooks compiled in (inert unless their 
 }
 
 needs_fast() { case "$1" in C04|C08|C09|C12) return 0;; *) return 1;; esac; }
-needs_engine() { case "$1" in C04|C05|C08|C12|C13|C14|C17) return 0;; *) return 1;; esac; }
+needs_engine() { case "$1" in C04|C05|C08|C11|C12|C13|C14|C17) return 0;; *) return 1;; esac; }
 
 if [ "${1:-}" = "setup" ]; then
   build_harness release
